@@ -128,6 +128,28 @@ def probe_leg(ck, n):
               not sub.validate("TFTerms_Trace", "TFTerms_Trace", [bad])[0]["accepted"])
 
 
+def near_one_decay(ck):
+  """second_moment_decay = 1 - 2^-17 (within 1e-5 of 1 but NOT 1): still an exponential moving average.
+  TLC's 32-bit dyadics cannot carry (1 - 2^-17)^k, so this decay is compared numerically, outside the term
+  machine: Tearfree Shampoo without grafting, three steps, against the float64 closed form
+  C_t = d C_{t-1} + (1 - d) g g', update = -lr prod_a C_a^(-1/(2 rank)) g."""
+  import numpy as np
+  jobs = [{"d": 1.0 - 2.0 ** -17, "shape": [4, 3], "seed": ck.seed * 10 + k, "T": 3} for k in range(2)]
+  res = core.run_workers("harness.workers.tf_nearone", jobs, x64=True, work=ck.work)
+  for j, r in zip(jobs, res):
+    ck.count(1, key=["near_one_decay", j["seed"]])
+    if r["error"]:
+      ck.violation("tf|shampoo|NONE|near_one_decay|code_raised", f"decay {j['d']!r}: {r['error']}", {"job": j})
+      continue
+    ck.calib("near_one_decay_update", r["worst"], 1e-6)
+    if not r["worst"] <= 1e-6:
+      ck.violation("tf|shampoo|NONE|near_one_decay|update_differs_from_documented_composition",
+                   f"second_moment_decay = 1 - 2^-17 on a {j['shape']} parameter: update deviates {r['worst']:.3g} from "
+                   f"-lr * (EMA covariances)^(-1/4) applied to g (step {r['step']})", {"job": j, "result": r})
+    else:
+      ck.traces_ok(1)
+
+
 def run(ck):
   quick = ck.quick
   ck.mc("TFTerms_MC", "TFTerms_MC", required_actions=["Step"])
@@ -136,6 +158,7 @@ def run(ck):
   ck.sample({"spec_behaviour": {"cfg": beh[0]["cfg"], "step1": beh[0]["steps"][0]}})
   jobs = make_jobs(ck, beh)
   judge(ck, jobs, execute(ck, jobs), "TFTerms_Gen replay")
+  near_one_decay(ck)
   # ---- binding self-tests -------------------------------------------------------------------------
   base = next(b for b in beh if b["cfg"]["md"] != [0, 0] and b["cfg"]["nest"] and not b["cfg"]["skipped"])
   bad = copy.deepcopy(base)       # forget the Nesterov look-ahead term of the last step
